@@ -160,7 +160,8 @@ pub fn run_case(case: &TrainCase) -> TrainRun {
         };
         run.built = true;
         run.fric_force_max = sim.fric_brake.force_max.value;
-        let r = catch(|| slts_schedule(&mut sim, case, &net, &path, false));
+        let mut started = false;
+        let r = catch(|| slts_schedule(&mut sim, case, &net, &path, false, &mut started));
         match r {
             Ok(Ok(())) => {}
             Ok(Err(e)) => run.result = Err(format!("{e:#}")),
@@ -206,10 +207,12 @@ pub fn slts_schedule(
     net: &[Link],
     path: &[LinkIdx],
     real_walk: bool,
+    started: &mut bool,
 ) -> anyhow::Result<()> {
     let n = path.len();
     if case.mode == 1 {
         sim.extend_path(net, path)?;
+        *started = true;
         if real_walk {
             return sim.walk();
         }
@@ -222,6 +225,7 @@ pub fn slts_schedule(
         // the known path or the train has come to rest waiting for more path, extend again;
         // finally walk to the end
         sim.extend_path(net, &path[..1])?;
+        *started = true;
         sim.walk_save_first();
         for k in 1..n {
             let mut guard = 0;
@@ -254,7 +258,8 @@ pub fn probe_walk_main(casefile: &str) -> i32 {
     lm.insert("B".into(), vec![location("B", n as u32)]);
     // no history: memory stays flat, only termination is observed
     let mut sim = tsb.make_speed_limit_train_sim(&lm, None, None, None).expect("sim");
-    match slts_schedule(&mut sim, &case, &net, &path, true) {
+    let mut started = false;
+    match slts_schedule(&mut sim, &case, &net, &path, true, &mut started) {
         Ok(()) => println!("RETURNED ok"),
         Err(e) => println!("RETURNED err {}", format!("{e:#}").replace('\n', " ")),
     }
